@@ -1,6 +1,9 @@
 """Which verification units decide which property, and how the result is labelled.
 
-A unit is either ("verus", <dir under contracts/verus>) or ("kani", <module under contracts/kani>).
+A unit is ("verus", <dir under contracts/verus>), ("kani", <module under contracts/kani>) or
+("native", <module under contracts/native>) -- the last kind is a BOUNDED STAND-IN (exhaustive native
+enumeration of a finite input domain of one function against its contract) for functions neither
+verifier can take; it is labelled bounded in the evidence and never counted as proved.
 `fn_filter` (regex on function keys) restricts which functions of a Verus unit are reported under a
 property; the whole unit is always run (a proof costs seconds).
 """
@@ -58,12 +61,12 @@ prop("C04",
      note="Assumes the tape view contracts (checked, bounded, in unit u2_tape), the Context::input/output oracle contracts (u2_tape) and the CellType ring contracts (proved in u1_cell; copied verbatim). Trusted: the canonical semantics in the unit template, vstd's str::as_bytes spec, Verus+Z3.")
 
 prop("C07",
-     units=[("verus", "u7_inplace", r"#limited"), ("kani", "u5_bcint_ops", None), ("kani", "u6_jit", None), ("kani", "u8_irint", None)],
+     units=[("verus", "u7_inplace", r"#limited"), ("kani", "u5_bcint_ops", None), ("kani", "u6_jit", None), ("kani", "u8_irint", None), ("native", "n1_emit", None)],
      level="model_checking",
      technique="Verus deductive proof of the LIMITED=true monomorphisation of the real in-place interpreter (simulation invariant + termination measure); Kani contract harnesses for the bytecode interpreter's limit op",
      design_ref="DESIGN.md section 4-U7, 5-C07",
      text="In-place backend (unbounded proof): budget-limited execution terminates (lexicographic measure), reports finished only when the canonical run halted, and its log is always a canonical prefix. Bytecode interpreter (Kani, per op): limit charges the budget, stops with registers spilled at budget <= cost and returns the next ip. IR interpreter (Kani, concrete block shapes): loops incl. nested ones stop with 'not finished' exactly at budget exhaustion and run nothing afterwards. JIT (Kani over all machine states): the emitted budget check terminates iff budget < 2.",
-     note="Proof covers the in-place interpreter; the other back ends are covered per mechanism and bounded. Not decided: placement of limit ops by build_threaded_code; 'effectively unlimited budget reports finished' for the compiled back ends (needs C01-C03 in full); irint Calc arm.")
+     note="Proof covers the in-place interpreter; the other back ends are covered per mechanism and bounded. Placement of limit ops by build_threaded_code: bounded stand-in (native enumeration of programs of <= 3 instructions). Not decided: 'effectively unlimited budget reports finished' for the compiled back ends (needs C01-C03 in full); irint Calc arm.")
 
 prop("C08",
      units=[("verus", "u7_inplace", None), ("kani", "u2_tape", None), ("kani", "u5_bcint_ops", None), ("kani", "u6b_jit_shims", None), ("kani", "u8_irint", None), ("kani", "u6_jit", None)],
@@ -74,12 +77,12 @@ prop("C08",
      note="The JIT's generated call sequences around Inp/Out (argument set-up, push/pop symmetry, alignment, jump to the termination path iff the shim reports failure) are decided by unit u6 for enumerated cell offsets / live masks over all machine states. NOT decided: llvmjit (feature off); irint Calc arm.")
 
 prop("C02",
-     units=[("kani", "u5_bcint_ops", None), ("kani", "u9_bc_passes", None)],
+     units=[("kani", "u5_bcint_ops", None), ("kani", "u9_bc_passes", None), ("native", "n1_emit", None)],
      level="model_checking",
      technique="Kani contract harnesses calling each threaded-op instantiation of the real bcint::ops directly on a symbolic machine state and comparing the whole post-state with a bytecode step semantics",
      design_ref="DESIGN.md section 4-U5, 5-C02",
      text="Interpreter-op layer only: every op instantiation exercised computes bc_step over the documented stream layout for all cell/temp/register contents, offsets and immediates (complete per instantiation); instantiations are enumerated (quick: seeded sample; thorough: all 1116 at u8).",
-     note="Also decided: the generator passes parameter_reordering, strip_noops, record_branch_targets, count_temps (unit u9). NOT decided: ops::emit / build_threaded_code (op selection, operand word order, branch patching: Kani needs > 65 GB for the op_match! expansion), the other bytecode-generator passes (emit_block, dead_store_elim, allocate_temps, zeroing_move_detection: std hash collections, Kani does not finish), the optimiser in front (C01), the release-build tail-call dispatcher. A defect there is not detected by this check.")
+     note="Also decided: the generator passes parameter_reordering, strip_noops, record_branch_targets, count_temps (unit u9). BOUNDED STAND-IN (native enumeration, not a proof): ops::emit (op selection and operand word order for all 1116 operand-kind combinations) and build_threaded_code (limit placement, branch patching) -- Kani needs > 65 GB for the op_match! expansion. NOT decided: the other bytecode-generator passes (emit_block, dead_store_elim, allocate_temps, zeroing_move_detection: std hash collections, Kani does not finish), the optimiser in front (C01), the release-build tail-call dispatcher. A defect there is not detected by this check.")
 
 prop("C06",
      units=[("kani", "u2_tape", None), ("kani", "u5_bcint_ops", None), ("kani", "u2b_bccontext", None), ("kani", "u6b_jit_shims", None), ("kani", "u6_jit", None)],
@@ -98,12 +101,12 @@ prop("C10",
      note="NOT decided: that a bounded canonical pointer excursion keeps the optimised program inside the margin (needs C01), the CLI's pre-allocation (C16), the JIT's unchecked mode unless unit u6 is listed.")
 
 prop("C15",
-     units=[("verus", "u4_expr", None)],
+     units=[("verus", "u4_expr", None), ("native", "n3_expr_ops", None)],
      level="proof",
      technique="Verus deductive proof on the real ir::Expr methods (extracted, with desugarings D2/D6/D7/D8/D9) against a polynomial evaluation function over an arbitrary assignment, generic in the width",
      design_ref="DESIGN.md section 4-U4, 5-C15",
      text="Proved fragment: val, var, add (sum), evaluate (evaluation), constant, const_inc_of, identity, constant_part (decompositions) agree with eval(e, rho) = sum coef*prod rho(var) mod 2^bits for every assignment rho and every width. Unbounded.",
-     note="NOT decided (a defect there is not detected): mul, mul_parts, neg, half, normalize, symb_evaluate, inc_of, prod_inc_of, prod_of, split_along, codegen -- closures with captured mutation, iterator adapters and HashMap code that Verus rejects and Kani does not finish. SmallVec is replaced by a Verus-checked Vec wrapper in the verification file (that it refines Vec is C18); slice Ord is assumed to satisfy Equal => equal sequences.")
+     note="NOT PROVED: mul, mul_parts, neg, half, normalize, symb_evaluate, inc_of, prod_inc_of, prod_of -- closures with captured mutation, iterator adapters and HashMap code that Verus rejects and Kani does not finish; they are covered by a BOUNDED STAND-IN (unit n3_expr_ops: native enumeration of a ~300-member expression family over two variables against the proved evaluate; counted separately, never as proved). NOT decided at all: split_along, codegen. SmallVec is replaced by a Verus-checked Vec wrapper in the verification file (that it refines Vec is C18); slice Ord is assumed to satisfy Equal => equal sequences.")
 
 prop("C03",
      units=[("kani", "u6_jit", None)],
